@@ -738,6 +738,55 @@ def gen_for_forest(r, rows, meta, k=0):
         yield ('misc', dict(what='subset-by-treeneuron', rows=rows, att=att, keep=[i for i in keep if i in pm] or ids[:1], meta=meta))
 
 
+def zero_suite():
+    """Zero-based node tables (the id 0 is falsy in Python): node 0 as the root, and node 0 in the middle of root paths.  Run by
+    harness/c10.py under every non-default back-end (fastcore off; igraph off), where `if parent:`-style tests would go wrong."""
+    trees = {
+        'zero-root': ({0: -1, 1: 0, 2: 1, 3: 2, 4: 2, 5: 4, 6: 1, 7: 6}, [3, 0, 5, 1, 7, 2, 6, 4]),
+        'zero-mid': ({5: -1, 3: 5, 0: 3, 2: 0, 4: 2, 1: 0, 6: 3, 7: 6}, [4, 6, 0, 5, 2, 7, 3, 1]),
+    }
+    steps = [(3, 0, 0), (0, 4, 0), (1, 2, 2), (2, 3, 6), (0, 0, 5), (4, 4, 7), (0, 3, 4), (6, 6, 7)]
+    for name, (par, order) in trees.items():
+        pos = {}
+        todo = [i for i in par if par[i] < 0]
+        for r in todo:
+            pos[r] = (8, 8, 8)
+        while todo:
+            a = todo.pop()
+            for i in par:
+                if par[i] == a:
+                    st = steps[i % len(steps)]
+                    pos[i] = tuple(pos[a][k] + st[k] for k in range(3))
+                    todo.append(i)
+        rows = [dict(id=i, parent=par[i], x=pos[i][0], y=pos[i][1], z=pos[i][2]) for i in order]
+        ids = sorted(par)
+        root = next(i for i in par if par[i] < 0)
+        nonroot = [i for i in ids if par[i] >= 0]
+        att = {'conn': [[100 + k, i, 'pre' if k % 2 else 'post'] for k, i in enumerate(ids)], 'tags': {'z': [0], 'ta': [nonroot[-1]]}, 'soma': 0}
+        meta = dict(shape=name, labeling='zero', order='shuffled', n=len(rows))
+        vias = ['func', 'method_inplace', 'setter', 'method', 'func_inplace', 'neuronlist']
+        for k, t in enumerate(ids):
+            yield ('rerootx', dict(rows=rows, att=att, targets=[t], via=vias[k % len(vias)], warm=['both', 'nx', 'none'][k % 3], meta=meta))
+            yield ('reroot', dict(rows=rows, targets=[t], meta=meta))
+        for seq in ([nonroot[0], root], [nonroot[-1], 0, nonroot[1]], ['t:ta', 0]):
+            yield ('rerootx', dict(rows=rows, att=att, targets=seq, via='func', warm='both', meta=meta))
+        for c in nonroot:
+            yield ('cut', dict(rows=rows, cuts=[c], conn=7, meta=meta))
+        kids = {i: [j for j in ids if par[j] == i] for i in ids}
+        deep = [(a, b) for a in nonroot for b in nonroot if a != b][::5]
+        for k, (a, b) in enumerate(deep):
+            yield ('prune', dict(rows=rows, att=att, which=['distal', 'proximal'][k % 2], nodes=[a, b], form=['list', 'array'][k % 2], inplace=bool(k % 3 == 0), meta=meta))
+            yield ('cutx', dict(rows=rows, att=att, where=[a, b], ret='both', form='list', meta=meta))
+        if par[0] >= 0:
+            yield ('prune', dict(rows=rows, att=att, which='distal', nodes=[0], form='scalar', inplace=False, meta=meta))
+            yield ('prune', dict(rows=rows, att=att, which='proximal', nodes=['t:z'], form='scalar', inplace=False, meta=meta))
+        leaves = [i for i in ids if not kids[i]]
+        for k, form in enumerate(['list', 'mask', 'graph', 'df']):
+            yield ('subsetx', dict(rows=rows, att=att, keep=leaves + [0], form=form, pf=True, meta=meta))
+            yield ('subsetx', dict(rows=rows, att=att, keep=[i for i in ids if i % 2 == 0], form=form, meta=meta))
+            yield ('subset', dict(rows=rows, keep=leaves + [0], form=['list', 'array'][k % 2], pf=True, seed=5 + k, meta=meta))
+
+
 def fixed_suite():
     """Deterministic cross product on one branched tree with sparse unsorted ids: every ordered pair of non-root nodes ×
     {distal, proximal} through the prune methods (forms and in-place cycling), every pair through cut_skeleton."""
